@@ -59,11 +59,25 @@ pub fn any_date() -> NaiveDate {
     kani::assume(d.is_some());
     d.unwrap()
 }
-/// Any time of day including every leap-second representation the public API can build.
+/// Any time of day including every leap-second representation the public API can build
+/// (`with_nanosecond` documents that a leap second may follow *any* whole second).
 #[cfg(kani)]
 pub fn any_time() -> NaiveTime {
+    use chrono::Timelike;
     let s: u32 = kani::any();
     let n: u32 = kani::any();
+    let t = NaiveTime::from_num_seconds_from_midnight_opt(s, 0);
+    kani::assume(t.is_some());
+    let t = t.unwrap().with_nanosecond(n);
+    kani::assume(t.is_some());
+    t.unwrap()
+}
+/// Any time of day that is not a leap second.
+#[cfg(kani)]
+pub fn any_plain_time() -> NaiveTime {
+    let s: u32 = kani::any();
+    let n: u32 = kani::any();
+    kani::assume(n < 1_000_000_000);
     let t = NaiveTime::from_num_seconds_from_midnight_opt(s, n);
     kani::assume(t.is_some());
     t.unwrap()
